@@ -1153,6 +1153,8 @@ class Interp:
         if isinstance(f, tuple) and len(f) == 2 and f[0] == "torchfn.F":
             cur().used_ops.add("F." + f[1])
             return FN[f[1]](*args, **kwargs)
+        if hasattr(f, "__self__") and type(f.__self__).__name__ == "NonzeroCols":
+            return f(*args, **kwargs)
         if isinstance(f, TensorMethod):
             cur().used_ops.add("Tensor." + f.name)
             kwargs.pop("device", None)
